@@ -127,6 +127,8 @@ def runC05 (fields : List String) (obs : String) : String × String × String :=
         | none => acc
         | some st => if holds acc.2.1 (expects.getD i none) then (acc.1 + 1, (exec acc.2.1 st).1, false) else (acc.1, acc.2.1, true)) (0, Store.empty, false) |>.1
       let stmts := stmts0.take usable
+      -- the steps after the cut are not predicted: they are echoed, so that the judged part alone decides
+      let obsTail := (obs.splitOn "@").drop usable
       let obs := "@".intercalate ((obs.splitOn "@").take usable)
       let obsSteps := obs.splitOn "@"
       -- run model and spec step by step
@@ -152,9 +154,9 @@ def runC05 (fields : List String) (obs : String) : String × String × String :=
               | _ => "-")
           go rest r.1 q.1 (os.drop 1) (mt :: accM) (stx :: accS) alias' destr' region' (bad || stepBad)
       let (ms, ss, region, bad) := go stmts Store.empty ⟨[]⟩ obsSteps [] [] false false "-" false
-      let model := "@".intercalate ms
+      let model := "@".intercalate (ms ++ obsTail)
       let spec := "@".intercalate ss
-      (model, if !bad && obs == spec then "ok" else "bad:expected " ++ spec, region)
+      (model, if !bad && obs == spec then "ok" else "bad:expected " ++ "@".intercalate (ss ++ obsTail), region)
   | _ => ("bad-case", "bad-case", "-")
 
 end MechVerif.Driver
